@@ -105,3 +105,24 @@ Section SkelLW05.
 End SkelLW05.
 Print Assumptions C05_code_point_wrapper.
 Print Assumptions C05_code_table_wrapper.
+
+(* ---- the LIKELIHOOD TABLE WRAPPER END TO END for the code AS TRANSLATED (Proofs/InterpLikelihood.v): its skeleton interpreted over
+   abstract matrices / vectors and arbitrary kernels.  Whatever the scoring caches of the clusters held before (stale or empty): the
+   table is the table kernel applied to the clusters' stored means, their TRAIN_INVERSE matrices (the fitted MRFs) and the
+   log-determinants OF THOSE VERY MATRICES, every cluster in order, with the data of the call.  (table_wrapper_stores in the same file:
+   the only stores into the model given are, per cluster, inverse_covariance := train_inverse and log_determinant := logdet of it.) ---- *)
+From Ticc Require Import Gen.G_ll_table Proofs.InterpLikelihood.
+Theorem C05_code_table_wrapper_end_to_end : forall (Mx Vec Num Dt Tab : Type) (logdet : Mx -> Num)
+    (table_fast : nat -> nat -> list Vec -> list Mx -> list Num -> Dt -> Tab)
+    (point_fast : Vec -> Vec -> Mx -> Num -> nat -> nat -> Num)
+    (cs : list (Cluster Mx Vec Num)) (W : nat) (d : Dt),
+  exists log' : list (PySkel.event (InterpLikelihood.val Mx Vec Num Dt Tab)),
+    g_all_points_all_clusters_log_likelihood (InterpLikelihood.val Mx Vec Num Dt Tab) (InterpLikelihood.VInt Mx Vec Num Dt Tab)
+      (InterpLikelihood.as_int Mx Vec Num Dt Tab) (InterpLikelihood.getattr Mx Vec Num Dt Tab)
+      (InterpLikelihood.oracle_model Mx Vec Num Dt Tab logdet table_fast point_fast)
+      (InterpLikelihood.VModel Mx Vec Num Dt Tab cs W) (InterpLikelihood.VData Mx Vec Num Dt Tab d) nil
+    = (PyRt.Ret (VTab Mx Vec Num Dt Tab
+         (table_fast W (length cs) (List.map (mean Mx Vec Num) cs) (List.map (train_inverse Mx Vec Num) cs)
+            (List.map (fun c : Cluster Mx Vec Num => logdet (train_inverse Mx Vec Num c)) cs) d)), log').
+Proof. exact table_wrapper_end_to_end. Qed.
+Print Assumptions C05_code_table_wrapper_end_to_end.
